@@ -293,7 +293,12 @@ template <class CP> static void block_sweep(bool T, const std::vector<double>& x
   for (size_t i = 0; i < n; ++i) {
     check(xs[i], ys[i]);
     if (T && i != n - 1 - i) check(xs[i], ys[n - 1 - i]);
-    if (T) { size_t j = (i + n / 3) % n; if (j != i && j != n - 1 - i) check(xs[i], ys[j]); }
+    if (T) {
+      size_t j1 = (i + n / 3) % n, j2 = (i + n / 5) % n, j3 = (i + 3 * n / 7) % n;
+      if (j1 != i && j1 != n - 1 - i) check(xs[i], ys[j1]);
+      if (j2 != i && j2 != n - 1 - i && j2 != j1) check(xs[i], ys[j2]);
+      if (j3 != i && j3 != n - 1 - i && j3 != j1 && j3 != j2) check(xs[i], ys[j3]);
+    }
   }
   if (T) for (double x : xc) for (double y : yc) check(x, y);
 }
@@ -472,7 +477,7 @@ int main(int argc, char** argv) {
   {
     std::vector<double> off = block_offsets(T);
     ctx.sub("utm-points");
-    ctx.bound("utm-points", std::string("every block (zone x 8 columns x rows -90..94): offsets {0, 50 km") + (T ? ", m*10^k m (m=1..9, k=-6..4), 0.3, 99999.7, 12345.678901, 98765.432109, each +-1 ulp" : ", 1 m and 1 ulp below, 1 um and 1 ulp above, 10 km") + ", 100 km - 1 ulp} paired diagonally" + (T ? ", anti-diagonally and with a one-third rotation (3 x 312 points), plus the full 12 x 12 cross product of {0, 0.5 um, 1 um, 0.3, 9.99999, 10, 1234.5, 50 km, 99990, 99999.999999, 1 m - 1 ulp, 100 km - 1 ulp}" : "") + "; prec " + (T ? "-2..12" : "{-2,-1,0,2,5,6,11,12}") + "; both Forward overloads, Reverse centre + SW corner, Forward again");
+    ctx.bound("utm-points", std::string("every block (zone x 8 columns x rows -90..94): offsets {0, 50 km") + (T ? ", m*10^k m (m=1..9, k=-6..4), 0.3, 99999.7, 12345.678901, 98765.432109, each +-1 ulp" : ", 1 m and 1 ulp below, 1 um and 1 ulp above, 10 km") + ", 100 km - 1 ulp} paired diagonally" + (T ? ", anti-diagonally and with rotations by n/3, n/5, 3n/7 (5 x 312 points), plus the full 12 x 12 cross product of {0, 0.5 um, 1 um, 0.3, 9.99999, 10, 1234.5, 50 km, 99990, 99999.999999, 1 m - 1 ulp, 100 km - 1 ulp}" : "") + "; prec " + (T ? "-2..12" : "{-2,-1,0,2,5,6,11,12}") + "; both Forward overloads, Reverse centre + SW corner, Forward again");
     for (int zone : zones) for (int col = 0; col < 8; ++col) {
       if (!ctx.take()) continue;
       std::vector<double> xs, ys, xc, yc;
@@ -514,6 +519,33 @@ int main(int argc, char** argv) {
         double lo = np ? 0 : 1000000.0, hi = np ? 9500000.0 : 10000000.0;
         for (int it = 0; it < 80; ++it) { double mid = 0.5 * (lo + hi), lat, lon; utm_lat(zone, np, x, mid, lat, lon); if (lat < edge) lo = mid; else hi = mid; }
         for (double d : {1e-6, -1e-6, 1e-3, -1e-3, 1.0, -1.0, 1000.0, -1000.0}) check_point(ctx, zone, np, x, hi + d, false, nullptr, "edge-");
+      }
+    }
+  }
+
+  // ================================================================= band letter on a dense lattice (thorough tier only)
+  if (T) {
+    ctx.sub("band-lattice");
+    ctx.bound("band-lattice", "every block of every zone: x at 5 km + 10 km * i (i = 0..9), y at 100 m + 200 m * j (j = 0..499): grid zone designation (prec -1) from both Forward overloads = zone + band of the latitude given by UTMUPS::Reverse");
+    for (int zone : zones) for (int col = 0; col < 8; ++col) {
+      if (!ctx.take()) continue;
+      for (int ra = -90; ra < 95; ++ra) {
+        bool np = ra >= 0;
+        double x0 = (col + 1) * 100000.0, y0 = np ? ra * 100000.0 : (ra + 100) * 100000.0;
+        for (int i = 0; i < 10; ++i) for (int j = 0; j < 500; ++j) {
+          Ctx::Case cs(ctx);
+          double x = x0 + 5000.0 + 10000.0 * i, y = y0 + 100.0 + 200.0 * j, lat, lon;
+          auto key = [&] { return "zone " + fmti(zone) + (np ? "n" : "s") + " (" + fx(x) + "," + fx(y) + ") prec -1"; };
+          auto FF = [&](const char* kind) { return mc::Fields{{"zone", fmti(zone)}, {"northp", np ? "1" : "0"}, {"x", fmt(x)}, {"y", fmt(y)}, {"kind", kind}}; };
+          if (!utm_lat(zone, np, x, y, lat, lon)) { ctx.fail(key(), "UTMUPS::Reverse rejects a coordinate inside the MGRS range", FF("utmups")); continue; }
+          int b1, b2; band_choices(lat, np, b1, b2);
+          if (b1 != b2) ctx.count("points_within_10nm_of_band_edge");
+          ctx.sig(100 + b1);
+          MF f = lib_fwd(zone, np, x, y, -1), g = lib_fwd_lat(zone, np, x, y, lat, -1);
+          std::string e1 = mgrsref::compose(zone, mgrsref::Cell{false, np, 0, 0, 0, 0, y}, utmref::BANDS[b1], -1), e2 = mgrsref::compose(zone, mgrsref::Cell{false, np, 0, 0, 0, 0, y}, utmref::BANDS[b2], -1);
+          if (f.o.outcome != 0 || (f.s != e1 && f.s != e2)) ctx.fail(key(), f.o.outcome ? "legal coordinate rejected: " + f.o.what : "Forward = '" + printable(f.s) + "', the latitude " + fx(lat) + " is in band " + utmref::BANDS[b1], FF("lattice-band-letter"));
+          else if (g.o.outcome != 0 || (g.s != e1 && g.s != e2)) ctx.fail(key(), std::string("Forward with lat = ") + fx(lat) + (g.o.outcome ? " threw: " + g.o.what : " gives '" + printable(g.s) + "'"), FF("lattice-lat-overload"));
+        }
       }
     }
   }
